@@ -19,14 +19,19 @@ import (
 	bls12377fr "github.com/consensys/gnark-crypto/ecc/bls12-377/fr"
 	bls12377sis "github.com/consensys/gnark-crypto/ecc/bls12-377/fr/sis"
 	"github.com/consensys/gnark-crypto/field/babybear"
+	babybearfft "github.com/consensys/gnark-crypto/field/babybear/fft"
 	babybearposeidon2 "github.com/consensys/gnark-crypto/field/babybear/poseidon2"
 	babybearsis "github.com/consensys/gnark-crypto/field/babybear/sis"
 	"github.com/consensys/gnark-crypto/field/goldilocks"
+	goldilocksfft "github.com/consensys/gnark-crypto/field/goldilocks/fft"
 	goldilocksposeidon2 "github.com/consensys/gnark-crypto/field/goldilocks/poseidon2"
 	goldilockssis "github.com/consensys/gnark-crypto/field/goldilocks/sis"
 	"github.com/consensys/gnark-crypto/field/koalabear"
+	fext "github.com/consensys/gnark-crypto/field/koalabear/extensions"
+	koalabearfft "github.com/consensys/gnark-crypto/field/koalabear/fft"
 	koalabearposeidon2 "github.com/consensys/gnark-crypto/field/koalabear/poseidon2"
 	koalabearsis "github.com/consensys/gnark-crypto/field/koalabear/sis"
+	"github.com/consensys/gnark-crypto/field/koalabear/vortex"
 	ghash "github.com/consensys/gnark-crypto/hash"
 )
 
@@ -37,6 +42,22 @@ func c18SliceOf[T any](x T, n int) []T {
 }
 
 func c18Clone[T any](s []T) []T { return append([]T(nil), s...) }
+
+// c18Par: the shapes of the `C18 par` lines (sizes above the thresholds of the parallel implementations)
+func c18Par(shape int) bool { return shape >= 16 }
+
+// c18Perm: a permutation of 0..n-1 (Fisher-Yates)
+func c18Perm(r *rng, n int) []int {
+	p := make([]int, n)
+	for i := range p {
+		p[i] = i
+	}
+	for i := n - 1; i > 0; i-- {
+		j := r.intn(i + 1)
+		p[i], p[j] = p[j], p[i]
+	}
+	return p
+}
 
 // c18Pick: the value of a size parameter for the shape of the line: shapes 0 and 1 are the two smallest arities of the
 // family, 2 a large one, every other shape draws at random
@@ -214,7 +235,11 @@ func c18SisMaker[E any, R interface{ Hash(v, res []E) error }](
 		p := params[r.intn(len(params))]
 		degree := 1 << p[0]
 		maxNb := degree * (1 + r.intn(3))
-		key, err := newR(int64(r.intn(1000)), p[0], p[1], maxNb)
+		if c18Par(shape) { // NewRSis fills the key with parallel.Execute over its polynomials: several per worker
+			maxNb = degree * (4 + r.intn(4)) * 32 / p[1]
+		}
+		keySeed := int64(r.intn(1000))
+		key, err := newR(keySeed, p[0], p[1], maxNb)
 		if err != nil {
 			panic(err)
 		}
@@ -232,13 +257,300 @@ func c18SisMaker[E any, R interface{ Hash(v, res []E) error }](
 		s.call = func() string {
 			res := make([]E, degree)
 			err := key.Hash(v, res)
-			return deepHash(&res) + c18Err(err)
+			out := deepHash(&res) + c18Err(err)
+			if c18Par(shape) { // the constructor: same arguments, same key
+				key2, err2 := newR(keySeed, p[0], p[1], maxNb)
+				out += deepHash(key2) + c18Err(err2)
+			}
+			return out
 		}
 		return s
 	}
 }
 
+// FFT packages of the small fields (same template as the per-curve fft entry; the packages differ by type only)
+type c18FFTAPI[E any] struct {
+	rnd         func(r *rng) E
+	newDomain   func(n uint64, kind int, shift E) any // kind 0 plain, 1 without precomputation, 2 shifted
+	transform   func(d any, a []E, inverse, dit, coset bool, nbTasks int)
+	cosetTables func(d any) ([]E, error, []E, error)
+	buildExp    func(w E, table []E)
+}
+
+func c18FFTMaker[E any](api c18FFTAPI[E]) c18Maker {
+	return func(r *rng, shape int) *c18Sess {
+		n := c18Pick(shape, 1, 2, 1024, func() int { return 4 << r.intn(9) })
+		kind := r.intn(3)
+		if shape >= 2 && shape <= 4 {
+			n = 1024 << (r.intn(5) / 2 * r.intn(2))
+			kind = []int{0, 2, 1}[shape-2]
+		}
+		if c18Par(shape) {
+			n = 2048 << (shape & 3)
+			kind = (shape >> 2) % 3
+		}
+		shift := api.rnd(r)
+		d := api.newDomain(uint64(n), kind, shift)
+		a := make([]E, n)
+		for i := range a {
+			a[i] = api.rnd(r)
+		}
+		nbTasks := 1 + r.intn(8)
+		if c18Par(shape) {
+			nbTasks = []int{0, 16, 4, 0}[r.intn(4)]
+		}
+		one := func(j int) string {
+			b := c18Clone(a)
+			api.transform(d, b, j&4 != 0, j&1 == 1, j&2 != 0, nbTasks)
+			return deepHash(&b)
+		}
+		var turn atomic.Uint64
+		run := func(rot int) string {
+			var res [8]string
+			for j := 0; j < 8; j++ {
+				k := (j*5 + rot) % 8
+				res[k] = one(k)
+			}
+			out := ""
+			for _, x := range res {
+				out += x
+			}
+			b := c18Clone(a)
+			api.transform(d, b, false, false, true, nbTasks)
+			api.transform(d, b, true, true, true, nbTasks)
+			ct, err, cti, err1 := api.cosetTables(d)
+			out += boolStr(deepHash(&b) == deepHash(&a)) + deepHash(&ct) + c18Err(err) + deepHash(&cti) + c18Err(err1)
+			if c18Par(shape) {
+				d2 := api.newDomain(uint64(n), kind, shift)
+				tbl := make([]E, n-n/8+3)
+				api.buildExp(shift, tbl)
+				out += deepHash(d2) + deepHash(&tbl)
+			}
+			return out
+		}
+		s := &c18Sess{args: []c18Arg{{"domain", d}, {"a", &a}, {"shift", &shift}}}
+		s.call = func() string { return run(0) }
+		s.concCall = func() string { return run(int(turn.Add(1) * 3)) }
+		return s
+	}
+}
+
+// ---- Vortex (koalabear only): commitment, Merkle tree, Reed-Solomon encoding ------------------------------------------
+func c18KoalaElem(r *rng) (e koalabear.Element) { e.SetUint64(r.u64()); return }
+func c18KoalaE4(r *rng) fext.E4 {
+	return fext.E4{B0: fext.E2{A0: c18KoalaElem(r), A1: c18KoalaElem(r)}, B1: fext.E2{A0: c18KoalaElem(r), A1: c18KoalaElem(r)}}
+}
+
+// BuildMerkleTree / Open / Verify on a shared slice of leaves. The levels with >= 512 nodes are hashed by parallel.Execute.
+func c18MerkleMaker(r *rng, shape int) *c18Sess {
+	n := c18Pick(shape, 1, 2, 512, func() int {
+		if r.coin() {
+			return 1 << r.intn(10)
+		}
+		return 1 + r.intn(700)
+	})
+	if c18Par(shape) { // 2^11 .. 2^14 leaves, exactly a power of two or padded
+		n = 2048 << (shape & 3)
+		if shape&4 != 0 {
+			n -= 1 + r.intn(n/2-1)
+		}
+	}
+	hashes := make([]vortex.Hash, n)
+	for i := range hashes {
+		for j := range hashes[i] {
+			hashes[i][j] = c18KoalaElem(r)
+		}
+	}
+	pos := []int{0, n - 1, r.intn(n)}
+	s := &c18Sess{args: []c18Arg{{"hashes", &hashes}}}
+	s.call = func() string {
+		mt := vortex.BuildMerkleTree(hashes)
+		root := mt.Root()
+		out := deepHash(&mt.Levels) + deepHash(&root)
+		for _, i := range pos {
+			proof, err := mt.Open(i)
+			out += deepHash(&proof) + c18Err(err) + c18Err(proof.Verify(i, hashes[i], root))
+		}
+		return out
+	}
+	return s
+}
+
+// Commit / OpenLinComb / OpenColumns / Verify / EncodeReedSolomon with shared Params and a shared input matrix
+func c18VortexMaker(r *rng, shape int) *c18Sess {
+	rate := []int{2, 2, 4, 8}[r.intn(4)]
+	numCol := c18Pick(shape, 1, 2, 256, func() int { return 1 << r.intn(8) })
+	numRow := c18Pick(shape, 1, 2, 8, func() int { return 1 + r.intn(16) })
+	if shape <= 2 {
+		rate = 2
+	}
+	if c18Par(shape) { // code words of >= 1024 columns: Merkle levels of >= 512 nodes; rows, columns, blocks per worker
+		rate = []int{2, 4, 2, 8}[shape&3]
+		numCol = (2048 << ((shape >> 2) & 1)) / rate
+		numRow = 6 + r.intn(10)
+	}
+	sp := [][2]int{{4, 8}, {6, 16}, {9, 16}, {5, 8}}[r.intn(4)]
+	key, err := koalabearsis.NewRSis(int64(r.intn(1000)), sp[0], sp[1], numRow)
+	if err != nil {
+		panic(err)
+	}
+	nsel := 1 + r.intn(4)
+	params, err := vortex.NewParams(numCol, numRow, key, rate, nsel)
+	if err != nil {
+		panic(err)
+	}
+	input := make([][]koalabear.Element, numRow)
+	for i := range input {
+		input[i] = make([]koalabear.Element, numCol)
+		for j := range input[i] {
+			input[i][j] = c18KoalaElem(r)
+		}
+	}
+	x, alpha := c18KoalaE4(r), c18KoalaE4(r)
+	selected := make([]int, nsel)
+	for i := range selected {
+		selected[i] = r.intn(numCol * rate)
+	}
+	s := &c18Sess{args: []c18Arg{{"params", params}, {"input", &input}, {"x", &x}, {"alpha", &alpha}, {"selectedColumns", &selected}}}
+	s.call = func() string {
+		ps, err := vortex.Commit(params, input)
+		if err != nil {
+			return "commit" + c18Err(err)
+		}
+		root := ps.GetCommitment()
+		out := deepHash(&ps.EncodedMatrix) + deepHash(&ps.SisHashes) + deepHash(&ps.MerkleTree.Levels) + deepHash(&root)
+		ps.OpenLinComb(alpha)
+		proof, err1 := ps.OpenColumns(selected)
+		ys := make([]fext.E4, numRow)
+		nerr := 0
+		for i := range ys {
+			var e error
+			if ys[i], e = vortex.EvalBasePolyLagrange(input[i], x); e != nil {
+				nerr++
+			}
+		}
+		err2 := params.Verify(vortex.VerifierInput{Proof: proof, MerkleRoot: root, ClaimedValues: ys, EvaluationPoint: x,
+			Alpha: alpha, SelectedColumns: selected})
+		cw := make([]koalabear.Element, numCol*rate)
+		params.EncodeReedSolomon(input[numRow-1], cw)
+		hx := vortex.EvalBasePolyHorner(input[0], x)
+		return out + deepHash(proof) + c18Err(err1) + deepHash(&ys) + fmt.Sprint(nerr) + c18Err(err2) + deepHash(&cw) + deepHash(&hx)
+	}
+	return s
+}
+
 func init() {
+	c18Makers["merkle/koalabear"] = c18MerkleMaker
+	c18Makers["vortex/koalabear"] = c18VortexMaker
+	c18Makers["fft/koalabear"] = c18FFTMaker(c18FFTAPI[koalabear.Element]{
+		rnd: func(r *rng) (e koalabear.Element) { e.SetUint64(r.u64()); return },
+		newDomain: func(n uint64, kind int, shift koalabear.Element) any {
+			switch kind {
+			case 0:
+				return koalabearfft.NewDomain(n)
+			case 1:
+				return koalabearfft.NewDomain(n, koalabearfft.WithoutPrecompute())
+			}
+			return koalabearfft.NewDomain(n, koalabearfft.WithShift(shift))
+		},
+		transform: func(d any, a []koalabear.Element, inverse, dit, coset bool, nbTasks int) {
+			dec := koalabearfft.DIF
+			if dit {
+				dec = koalabearfft.DIT
+			}
+			var opts []koalabearfft.Option
+			if nbTasks > 0 {
+				opts = append(opts, koalabearfft.WithNbTasks(nbTasks))
+			}
+			if coset {
+				opts = append(opts, koalabearfft.OnCoset())
+			}
+			if inverse {
+				d.(*koalabearfft.Domain).FFTInverse(a, dec, opts...)
+			} else {
+				d.(*koalabearfft.Domain).FFT(a, dec, opts...)
+			}
+		},
+		cosetTables: func(d any) ([]koalabear.Element, error, []koalabear.Element, error) {
+			ct, err := d.(*koalabearfft.Domain).CosetTable()
+			cti, err1 := d.(*koalabearfft.Domain).CosetTableInv()
+			return ct, err, cti, err1
+		},
+		buildExp: koalabearfft.BuildExpTable,
+	})
+	c18Makers["fft/babybear"] = c18FFTMaker(c18FFTAPI[babybear.Element]{
+		rnd: func(r *rng) (e babybear.Element) { e.SetUint64(r.u64()); return },
+		newDomain: func(n uint64, kind int, shift babybear.Element) any {
+			switch kind {
+			case 0:
+				return babybearfft.NewDomain(n)
+			case 1:
+				return babybearfft.NewDomain(n, babybearfft.WithoutPrecompute())
+			}
+			return babybearfft.NewDomain(n, babybearfft.WithShift(shift))
+		},
+		transform: func(d any, a []babybear.Element, inverse, dit, coset bool, nbTasks int) {
+			dec := babybearfft.DIF
+			if dit {
+				dec = babybearfft.DIT
+			}
+			var opts []babybearfft.Option
+			if nbTasks > 0 {
+				opts = append(opts, babybearfft.WithNbTasks(nbTasks))
+			}
+			if coset {
+				opts = append(opts, babybearfft.OnCoset())
+			}
+			if inverse {
+				d.(*babybearfft.Domain).FFTInverse(a, dec, opts...)
+			} else {
+				d.(*babybearfft.Domain).FFT(a, dec, opts...)
+			}
+		},
+		cosetTables: func(d any) ([]babybear.Element, error, []babybear.Element, error) {
+			ct, err := d.(*babybearfft.Domain).CosetTable()
+			cti, err1 := d.(*babybearfft.Domain).CosetTableInv()
+			return ct, err, cti, err1
+		},
+		buildExp: babybearfft.BuildExpTable,
+	})
+	c18Makers["fft/goldilocks"] = c18FFTMaker(c18FFTAPI[goldilocks.Element]{
+		rnd: func(r *rng) (e goldilocks.Element) { e.SetUint64(r.u64()); return },
+		newDomain: func(n uint64, kind int, shift goldilocks.Element) any {
+			switch kind {
+			case 0:
+				return goldilocksfft.NewDomain(n)
+			case 1:
+				return goldilocksfft.NewDomain(n, goldilocksfft.WithoutPrecompute())
+			}
+			return goldilocksfft.NewDomain(n, goldilocksfft.WithShift(shift))
+		},
+		transform: func(d any, a []goldilocks.Element, inverse, dit, coset bool, nbTasks int) {
+			dec := goldilocksfft.DIF
+			if dit {
+				dec = goldilocksfft.DIT
+			}
+			var opts []goldilocksfft.Option
+			if nbTasks > 0 {
+				opts = append(opts, goldilocksfft.WithNbTasks(nbTasks))
+			}
+			if coset {
+				opts = append(opts, goldilocksfft.OnCoset())
+			}
+			if inverse {
+				d.(*goldilocksfft.Domain).FFTInverse(a, dec, opts...)
+			} else {
+				d.(*goldilocksfft.Domain).FFT(a, dec, opts...)
+			}
+		},
+		cosetTables: func(d any) ([]goldilocks.Element, error, []goldilocks.Element, error) {
+			ct, err := d.(*goldilocksfft.Domain).CosetTable()
+			cti, err1 := d.(*goldilocksfft.Domain).CosetTableInv()
+			return ct, err, cti, err1
+		},
+		buildExp: goldilocksfft.BuildExpTable,
+	})
+
 	// bls12-377 is the only curve with an RSis package
 	c18Makers["sis/bls12-377"] = c18SisMaker[bls12377fr.Element](bls12377sis.NewRSis,
 		func(r *rng) (e bls12377fr.Element) { e.SetBigInt(r.bigBits(300)); return },
